@@ -23,6 +23,29 @@ _CMPNAME = {ast.Eq: "eq", ast.NotEq: "ne", ast.Lt: "lt", ast.LtE: "le", ast.Gt: 
 NOOP_EXT_PREFIXES = ("log.", "self._log.", "warnings.")
 
 
+class Vec(list):
+    """1-D numeric array of concrete length whose elements are numbers or int/real Syms (element-wise arithmetic)."""
+
+
+class SymRange:
+    def __init__(self, n):
+        self.n = n  # z3 int expr
+
+
+class SymSeq:
+    """Sequence of symbolic length (only its length is tracked)."""
+
+    def __init__(self, n):
+        self.n = z3.simplify(n) if not isinstance(n, int) else z3.IntVal(n)
+
+    def append(self, x):
+        self.n = z3.simplify(self.n + 1)
+
+    def extend(self, xs):
+        k = xs.n if isinstance(xs, SymSeq) else len(xs)
+        self.n = z3.simplify(self.n + k)
+
+
 class ModuleRef:
     def __init__(self, module):
         self.module = module
@@ -58,6 +81,7 @@ class Interp:
         self.inline_depth = inline_depth
         self.obligations = []  # (label, z3 bool that must hold under the path condition)
         self.loop_counter = {}
+        self.unroll = 0  # > 0: unroll symbolic while loops up to this bound with an unwinding assertion
         self.writes_log = []  # (obj, field) plain field writes, for frame reports
 
     # ---------------------------------------------------------------------------------------------
@@ -156,7 +180,11 @@ class Interp:
         try:
             return ast.literal_eval(node)
         except Exception:  # noqa: BLE001
-            return ExtRef(f"{mod.name.split('.')[-1]}.{name}")
+            pass
+        ok = (ast.Dict, ast.List, ast.Tuple, ast.Constant, ast.BinOp, ast.UnaryOp, ast.operator, ast.unaryop, ast.expr_context)
+        if all(isinstance(n, ok) for n in ast.walk(node)):
+            return eval(compile(ast.Expression(node), "<const>", "eval"), {"__builtins__": {}})  # noqa: S307
+        return ExtRef(f"{mod.name.split('.')[-1]}.{name}")
 
     def get_attr(self, base, attr, env=None):
         if isinstance(base, Obj):
@@ -197,7 +225,7 @@ class Interp:
             if a is not None:
                 return self.eval(a, Env(c.module))
             raise PyRaise("AttributeError", attr)
-        if isinstance(base, (str, list, tuple, dict, set, int, float)):
+        if isinstance(base, (str, list, tuple, dict, set, int, float, SymSeq)):
             return PyMethod(base, attr)
         if isinstance(base, BoundMethod) or isinstance(base, Func):
             raise OutsideSubset(f"attribute {attr} of function")
@@ -490,6 +518,8 @@ class Interp:
             raise OutsideSubset("nested comprehension")
         g = node.generators[0]
         it = self.eval(g.iter, env)
+        if isinstance(it, SymRange) and not g.ifs:
+            return SymSeq(z3.If(it.n > 0, it.n, 0))
         seq = self.concrete_iter(it)
         if seq is None:
             reads = self.read_values(node, env)
@@ -585,6 +615,21 @@ class Interp:
         return out
 
     def binop(self, op, l, r):
+        if isinstance(l, SymSeq) or isinstance(r, SymSeq):
+            if op is ast.Add:
+                nl = l.n if isinstance(l, SymSeq) else len(l)
+                nr = r.n if isinstance(r, SymSeq) else len(r)
+                return SymSeq(nl + nr)
+            raise OutsideSubset("arithmetic on a symbolic-length sequence")
+        if isinstance(l, Vec) or isinstance(r, Vec):
+            if isinstance(l, Vec) and isinstance(r, Vec):
+                if len(l) != len(r):
+                    raise PyRaise("ValueError", "shape mismatch")
+                return Vec([self.binop(op, a, b) for a, b in zip(l, r)])
+            if isinstance(l, Vec) and not isinstance(r, (list, tuple, Obj)):
+                return Vec([self.binop(op, a, r) for a in l])
+            if isinstance(r, Vec) and not isinstance(l, (list, tuple, Obj)):
+                return Vec([self.binop(op, l, b) for b in r])
         if not self.is_sym(l, r) and not isinstance(l, Obj) and not isinstance(r, Obj):
             try:
                 return _BINOPS[op](l, r)
@@ -815,7 +860,7 @@ class Interp:
                 load = copy_load(s.target)
                 cur = self.eval(load, env)
                 new = self.binop(type(s.op), cur, self.eval(s.value, env))
-                if isinstance(cur, list) and isinstance(s.op, ast.Add) and isinstance(new, list):
+                if isinstance(cur, list) and not isinstance(cur, Vec) and isinstance(s.op, ast.Add) and isinstance(new, list):
                     cur[:] = new
                     new = cur
                 self.assign_target(s.target, new, env)
@@ -934,6 +979,23 @@ class Interp:
         while True:
             c = self.eval(s.test, env)
             if isinstance(c, Sym):
+                if self.unroll:
+                    # bounded unrolling with an unwinding assertion (complete when the assertion is proved)
+                    if n >= self.unroll:
+                        cz = c.e if c.kind == "bool" else (c.e != 0)
+                        self.obligations.append((f"unwinding assertion ({self.unroll} iterations) of `while {ast.unparse(s.test)}`", z3.Not(cz)))
+                        self.p.pc.append(z3.Not(cz))
+                        break
+                    if not self.truth(c):
+                        break
+                    n += 1
+                    try:
+                        self.exec_block(s.body, env)
+                    except _Break:
+                        return
+                    except _Continue:
+                        continue
+                    continue
                 if n == 0:
                     self.summarise_loop(s, env, [])
                     return
@@ -1050,7 +1112,7 @@ class PyMethod:
         self.obj, self.name = obj, name
 
     def call(self, it, args, kwargs):
-        if any(isinstance(a, (Sym, Obj)) for a in args) and not isinstance(self.obj, (list, dict, set)):
+        if any(isinstance(a, (Sym, Obj)) for a in args) and not isinstance(self.obj, (list, dict, set, SymSeq)):
             return it.w.uf(f"meth.{self.name}", [self.obj] + list(args), "val")
         try:
             return getattr(self.obj, self.name)(*args, **kwargs)
@@ -1116,6 +1178,8 @@ def _isinstance(it, args, kwargs):
 
 def _len(it, args, kwargs):
     (v,) = args
+    if isinstance(v, SymSeq):
+        return Sym(v.n, "int")
     if isinstance(v, Sym) and v.meta.get("len") is not None:
         ln = v.meta["len"]
         return ln if isinstance(ln, int) else Sym(ln, "int")
@@ -1160,6 +1224,8 @@ def _abs(it, args, kwargs):
 
 
 def _range(it, args, kwargs):
+    if len(args) == 1 and isinstance(args[0], Sym) and args[0].kind == "int":
+        return SymRange(args[0].e)
     if any(isinstance(a, Sym) for a in args):
         return it.w.uf("range", list(args), "val")
     return range(*[int(a) for a in args])
@@ -1193,6 +1259,35 @@ def _generic(name, kind="val"):
             except (TypeError, ValueError) as e:
                 raise PyRaise(type(e).__name__, str(e)) from None
         return it.w.uf(name, list(args), kind)
+
+    return f
+
+
+def _numeric(v):
+    return isinstance(v, (int, float)) or (isinstance(v, Sym) and v.kind in ("int", "real"))
+
+
+def _sum(it, args, kwargs):
+    v = args[0]
+    if isinstance(v, (list, tuple)) and all(_numeric(x) for x in v):
+        tot = args[1] if len(args) > 1 else 0
+        for x in v:
+            tot = it.binop(ast.Add, tot, x)
+        return tot
+    return _generic("sum")(it, args, kwargs)
+
+
+def _minmax(name):
+    def f(it, args, kwargs):
+        vals = list(args[0]) if len(args) == 1 and isinstance(args[0], (list, tuple)) else list(args)
+        if vals and all(_numeric(v) for v in vals) and any(isinstance(v, Sym) for v in vals):
+            cur = vals[0]
+            for v in vals[1:]:
+                c = it.compare(ast.Gt if name == "max" else ast.Lt, v, cur)
+                kind = "real" if any((isinstance(x, Sym) and x.kind == "real") or isinstance(x, float) for x in (v, cur)) else "int"
+                cur = Sym(z3.If(c.e if isinstance(c, Sym) else z3.BoolVal(bool(c)), it.as_z3(v, kind), it.as_z3(cur, kind)), kind)
+            return cur
+        return _generic(name)(it, args, kwargs)
 
     return f
 
@@ -1238,7 +1333,7 @@ _BUILTINS = {
     "isinstance": Builtin("isinstance", _isinstance), "len": Builtin("len", _len), "int": Builtin("int", _int),
     "float": Builtin("float", _float), "abs": Builtin("abs", _abs), "range": Builtin("range", _range),
     "hasattr": Builtin("hasattr", _hasattr), "getattr": Builtin("getattr", _getattr),
-    "min": Builtin("min", _generic("min")), "max": Builtin("max", _generic("max")), "sum": Builtin("sum", _generic("sum")),
+    "min": Builtin("min", _minmax("min")), "max": Builtin("max", _minmax("max")), "sum": Builtin("sum", _sum),
     "sorted": Builtin("sorted", _generic("sorted")), "set": Builtin("set", _generic("set")),
     "str": Builtin("str", _generic("str")), "bool": Builtin("bool", _generic("bool", "bool")),
     "list": Builtin("list", _list), "tuple": Builtin("tuple", _tuple), "zip": Builtin("zip", _zip),
